@@ -19,7 +19,8 @@ PREFIXES = ('C16:',)
 def run(ctx):
     sc.design_mc(ctx, "C16", ["MC_Scheduler_fork.cfg"], ["MC_Scheduler_fork_live.cfg"])
     runs = sc.matrix(ctx.tier, "fork")
-    # gated demonstration of the try_lock().unwrap() race (KNOWN-FINDING when it is hit)
+    # gated run: a GC request made while the last worker is exiting for fork (once the try_lock().unwrap()
+    # race, repaired by b4affbf) stays pending and is served after after_fork
     if True:
         runs.append(sc.SRun("SemiSpace", "gate-trylock", driver="scheddrive", workers=2, mutators=1,
                             extra=["--gate", "trylock"], seed_off=51, timeout=60))
